@@ -148,6 +148,7 @@ fn exhaustive(shard: u64, nshards: u64, thorough: bool, st: &mut Stats) -> Resul
             }
             for perm in &perms {
                 st.cases += 1;
+                    crate::engine::beat();
                 let mut reg: MerkleReg<Vec<u8>> = MerkleReg::new();
                 let mut know: Bits = 0;
                 let mut had_orphan = false;
